@@ -31,7 +31,9 @@ A_PURE = {"fprintf", "fputc", "vfprintf", "perror", "stderr", "strerror", "strsi
           "memchr", "memrchr", "strtol", "strtoul", "strtoll", "strtoull", "atoi", "atol", "isalpha", "isdigit", "isalnum",
           "isspace", "isupper", "islower", "tolower", "toupper", "__ctype_b_loc", "__ctype_tolower_loc", "__ctype_toupper_loc",
           "sprintf", "vsnprintf", "vsprintf", "__sprintf_chk", "__snprintf_chk", "__vsnprintf_chk", "qsort", "bsearch", "abs",
-          "fflush", "stdout", "printf", "__printf_chk", "putchar", "fputs", "bcmp", "calloc", "sigemptyset", "sigaddset", "sigfillset", "sigdelset", "sigismember"}
+          "fflush", "stdout", "printf", "__printf_chk", "putchar", "fputs", "bcmp", "calloc", "sigemptyset", "sigaddset", "sigfillset", "sigdelset", "sigismember",
+          # spawn attribute objects are plain data; the simulated posix_spawnp reads them back with the get* accessors
+          "posix_spawnattr_init", "posix_spawnattr_destroy", "posix_spawnattr_setflags", "posix_spawnattr_setsigdefault", "posix_spawnattr_setsigmask", "posix_spawnattr_setpgroup"}
 
 
 class HarnessError(Exception):
